@@ -133,6 +133,7 @@ def build_pool(rng, size=270):
               Literal(_dt.datetime(2006, 1, 1)), Literal(_dt.datetime(2006, 1, 1, tzinfo=_dt.timezone.utc)),
               Literal(_dt.date(2006, 1, 1)), Literal(_dt.time(10, 0)), Literal(_dt.time(10, 0, tzinfo=_dt.timezone.utc)),
               Literal(_dt.timedelta(days=1)), Literal(True),
+              Variable("??x"), Variable("?"),
               Literal("a", datatype=URIRef("http://e/dt")), Literal("b", datatype=URIRef("http://e/dt")),
               Literal("a", datatype=URIRef("http://e/dt2")), Literal("1", datatype=URIRef("http://e/dt")),
               empty_lang_literal("a"), empty_lang_literal("b"),
@@ -203,7 +204,7 @@ def mk(j):
     if j[0] == "B":
         return BNode(j[1])
     if j[0] == "V":
-        return Variable(j[1])
+        return Variable("?" + j[1])   # the constructor strips one leading '?': every name, also '' and '?x', can be built
     _, lex, dt, lang = j
     if lang == "":
         return empty_lang_literal(lex)
@@ -552,6 +553,8 @@ class Text(Suite):
     model = "tmodel_obs"
     oeq = "tobs_eqb"
     spec = "tspec_ok"
+    kf = "tkf"
+    kf_ids = {1: "F7a"}
     corr = ("URIRef.n3, BNode.n3, Variable.n3, Literal.n3/_literal_n3/_quote_encode, util.from_n3, "
             "__reduce__ of the four classes + constructors")
     quick_n = 800
@@ -566,8 +569,6 @@ class Text(Suite):
 
     def usable(self, j):
         if j[0] == "L" and j[3] == "":
-            return False
-        if j[0] == "V" and (j[1] == "" or j[1].startswith("?")):
             return False
         if j[0] == "L" and j[2] is not None and any(c in j[2] for c in rdflib.term._invalid_uri_chars):
             return False
@@ -641,20 +642,19 @@ class Text(Suite):
                 g = Graph()
                 g.parse(data="<http://s> <http://p> %s ." % n, format="turtle")
                 objs = list(g.objects())
-                ok = len(objs) == 1 and back(objs[0]) == nf
+                ok = len(objs) == 1 and back(objs[0]) == j
             except Exception as e:  # noqa: BLE001
                 ok = False
                 why.append("turtle: " + type(e).__name__)
             obs["flags"][1] = ok
-        # read back through SPARQL (BIND and VALUES); the SPARQL parser does not normalise, so either the term or its
-        # normal form is accepted; see notes/C07.md for the two exclusions
+        # read back through SPARQL (BIND and VALUES): the same term; see notes/C07.md for the two exclusions
         respelled = j[0] == "L" and not n.startswith(t._quote_encode())
         if (j[0] == "I" or (j[0] == "L" and "\\u" not in j[1] and "\\U" not in j[1] and not respelled)):
             ok = True
             for q in ("SELECT ?v WHERE { BIND(%s AS ?v) }", "SELECT ?v WHERE { VALUES ?v { %s } }"):
                 try:
                     rows = list(Graph().query(q % n))
-                    ok = ok and len(rows) == 1 and back(rows[0][0]) in (j, nf)
+                    ok = ok and len(rows) == 1 and back(rows[0][0]) == j
                 except Exception as e:  # noqa: BLE001
                     ok = False
                     why.append("sparql: " + type(e).__name__)
@@ -747,9 +747,7 @@ class Pickler(Suite):
         terms = []
         while len(terms) < 2:
             s = rng.choice(pool)[1] if rng.random() < 0.7 else rng.choice(["a", "b1", "x", "http://example.org/", "1", "true"])
-            fam = [["I", s], ["B", s], ["L", s, None, None]]
-            if s and not s.startswith("?"):
-                fam.append(["V", s])
+            fam = [["I", s], ["B", s], ["L", s, None, None], ["V", s]]
             if rng.random() < 0.5:
                 fam.append(["L", s, None, rng.choice(["en", "EN"])])
             if rng.random() < 0.4:
@@ -804,7 +802,7 @@ class Pickler(Suite):
         rng = random.Random("C07-sweep")
         strings = sorted({tj(t)[1] for t in build_pool(rng)})[:120]
         for s in strings:
-            fam = [["I", s], ["L", s, None, None], ["B", s]] + ([["V", s]] if s and not s.startswith("?") else [])
+            fam = [["I", s], ["L", s, None, None], ["B", s], ["V", s]]
             fam = [j for j in (tj(mk(j)) for j in fam) if self.usable(j)]
             yield {"terms": fam}
             yield {"terms": fam[::-1]}
@@ -836,8 +834,11 @@ ASSUMPTIONS = [
     "for all other pairs of literals (dates, times, durations, decimals, doubles, NaN, ill-typed, custom datatypes) the order is "
     "checked by laws only: < and > never raise, inside one datatype < is irreflexive/asymmetric/transitive, sorted() is "
     "reproducible, ties are Literal.eq",
-    "variables are named by non-empty strings that do not start with '?'; datatype IRIs are non-empty and free of the characters "
-    "URIRef.n3 refuses; language tags are what the constructor accepts; Genid/RDFLibGenid/Graph objects as terms are not in scope",
+    "well-formed terms (wf_term, named in the theorem statements): strings of code points; a literal has a language tag the "
+    "constructor accepts or a datatype IRI, not both; datatype IRIs are non-empty and free of the characters URIRef.n3 refuses "
+    "(n3() cannot express the others); Genid/RDFLibGenid/Graph objects as terms are not in scope",
+    "text suite: outside the trigger of the open finding F7a (the constructor does not leave the n3-visible lexical form alone) "
+    "from_n3(t.n3()), the Turtle and the SPARQL read-back must be THE SAME TERM; inside it the model still predicts what from_n3 returns",
     "no namespace manager is passed to n3() (no prefix shortening)",
 ]
 RULE = ("laws: 2-6 terms (sweep: 5-10) drawn from a per-run pool of about 270 structurally distinct terms (all four kinds; literals over "
